@@ -998,7 +998,7 @@ def concurrent_ends(ctx, share):
             break
         # (at most one pre-emption, then at most two: the atomicity windows)
         c20.explore_dfs(ctx, causes, 1, base, limit * 5)
-        c20.explore_dfs(ctx, causes, 2, base, limit)
+        c20.explore_dfs(ctx, causes, 2, base, limit, bystander=False)
     k = ctx.shard * 10 ** 6
     triples = [list(t) for t in itertools.combinations(c20.CAUSES, 3)]
     while time.time() - t0 < share and not ctx.too_many_violations():
@@ -1033,7 +1033,8 @@ def replay(ctx, w):
         wi = w['witness']
         return c20.run_schedule(ctx, wi['causes'], wi['choices'], None, None,
                                 False, c20.baseline_size(),
-                                wi.get('partial_binary_packet', False))
+                                wi.get('partial_binary_packet', False),
+                                wi.get('bystander', True))
     if w['witness'].get('part') == 'late_ops_with_bystander':
         return late_ops_with_bystander(ctx, w['witness']['case_index'])
     if w['witness'].get('part') == 'late_work_race':
